@@ -1,9 +1,25 @@
 package fuzzer
 
-import "math/rand"
+import (
+	"math/rand"
+
+	"github.com/smarthome-go/homescript/v3/homescript/analyzer/ast"
+)
+
+type analyzedStatement = ast.AnalyzedStatement
 
 // VerifNewTransformer builds a Transformer over a given random source (the engine turns every
 // draw into a fork variable; natively the source replays the draws of a counterexample).
 func VerifNewTransformer(src rand.Source) Transformer {
 	return Transformer{randSource: src, modifications: 0}
+}
+
+// VerifStmtVariants exposes the transformer's list of behaviour-preserving variants of one statement.
+func VerifStmtVariants(src rand.Source, node interface{}) []interface{} {
+	tr := Transformer{randSource: src, modifications: 0}
+	out := []interface{}{}
+	for _, v := range tr.stmtVariants(node.(analyzedStatement)) {
+		out = append(out, v)
+	}
+	return out
 }
